@@ -5,6 +5,34 @@ HOME = os.path.dirname(os.path.dirname(os.path.abspath(__file__)))
 sys.path.insert(0, HOME)
 
 CHECKS = {
+ "C07": dict(engine="E3 probe bus", technique="invariant monitor at the commit hook of the real mediator loop (full by-value state snapshots before/after every event) over shipped and generated scenarios",
+    level="exploration", ref="DESIGN.md §3 C07",
+    text="The real mediator loop of all 19 shipped configurations and of generated systems (soft/LJ/hard spheres, cells, cell-bounding, molecules with mode switching, both schedulers) is run with transparent proxies at its public boundaries; at every commit time order, continuity of every unit (single congruence relation), 'inactive units do not move' (bitwise), single chain with conserved speed, positions in [0,L), identities and charges are decided on value snapshots.",
+    note="Held on the event histories actually produced (event-budgeted runs). Event time of a commit = time last pushed by the committing handler. Tolerance 1e-9*L for the congruence only."),
+ "C08": dict(engine="E3 probe bus", technique="invariant monitor pairing two hooks: by-value in-state snapshot at send_event_time entry vs global state at the commit of that candidate",
+    level="exploration", ref="DESIGN.md §3 C08",
+    text="For every committed interaction / cell-veto event of every scenario the units of the in-state from which the candidate was computed are compared with the global state just before the commit: same velocity (exact), same line (1e-9 L), same position for resting units (exact). Evidence lists commits per tagger class.",
+    note="Interaction-type = handlers owned by factor-type-map, cell-veto, cell-bounding, excluded-cells, surplus taggers. Histories are those produced by the scenario suite."),
+ "C09": dict(engine="E3 probe bus", technique="invariant monitor at the activator hook with from-scratch recomputation (pending events reconstructed from return values vs the tagger's own generator on a fresh active state)",
+    level="exploration", ref="DESIGN.md §3 C09",
+    text="After every activator call of every scenario the multiset of pending in-state identifier tuples per interaction tagger (counts for the other taggers) is compared with what the tagger yields from scratch; TagActivatorError in any run is a violation.",
+    note="Pending set is reconstructed from get_event_handlers_to_run / get_trashable_events return values only. The first call (before the start-of-run commit) and the start-of-run tagger are outside the statement. Generators are checked to be pure by calling them twice."),
+ "C11": dict(engine="E3 probe bus", technique="invariant monitor at the activator and commit hooks comparing the cell-occupancy bookkeeping with ground-truth positions",
+    level="exploration", ref="DESIGN.md §3 C11",
+    text="After every activator call in every cell scenario (shipped cell_bounded/cell_veto/hard-disk cells, generated grids with occupant limits 1,2,unbounded, hard disks crossing cells in all directions) every relevant unit must be recorded exactly once in the occupant/surplus list of its true cell, the active unit separately, limits respected; at commits the active unit must still be in its recorded cell unless the committing handler is the cell-boundary handler, after which it must be in the neighbouring cell.",
+    note="Cell of a surplus unit is read from the private surplus dictionary (not exposed publicly). Relevance/limit taken from the .ini."),
+ "C12": dict(engine="E3 probe bus", technique="invariant monitor at the commit hook: composite objects recomputed from their point masses (weighted velocity sum, nearest-image barycentre) at t=0 and after every event",
+    level="exploration", ref="DESIGN.md §3 C12",
+    text="Dipoles (7 variants), water (5), hard-disk dipoles (3) and generated molecules of 2-4 point masses with leaf<->root switching (short switch intervals: hundreds of switches) are run; after every commit every composite's stored velocity and advanced position are compared with its members'.",
+    note="Velocity tolerance 1e-12 relative, barycentre tolerance 1e-9 L; molecule extent < L/2."),
+ "C13": dict(engine="E4 history/model + E3 probe bus", technique="history + executable dict model on the real TreeStateHandler (extract/mutate/insert/extract-active sequences) and between-commit bitwise state comparison in real runs",
+    level="exploration", ref="DESIGN.md §3 C13",
+    text="Thousands of 60-operation sequences on random trees are executed on the real state handler; after every operation the global state and every still-extracted branch are compared by value with the model (aliasing of any field at any level shows as a difference). In real runs the global-state snapshot after commit k must equal the one before commit k+1 and committed values must read back.",
+    note="Mutation of a branch after insertion is outside the statement. Active rule judged only on consistent states."),
+ "C17": dict(engine="E3 probe bus + direct drive", technique="online checker over the write log of real runs (exact-arithmetic sample times, per-unit time-slice check of the object handed to the output handler) and direct drive of the interval handlers to k=10^5..10^6",
+    level="exploration", ref="DESIGN.md §3 C17",
+    text="Every write of every sampling handler in shipped and generated runs is checked: committed time vs k*interval (Fractions), every moving unit of the handed-over state carries the sample time as stamp and lies on its pre-event trajectory; run ends with the end-of-run handler at the configured time; number of writes = number of sampling times before the end. Bare handlers are driven for up to 10^6 consecutive candidates.",
+    note="Tolerance (k+2)*ulp(1+interval)/2. Exact ties between a sampling time and the end time are not generated."),
  "C05": dict(engine="E4 contract sweep", technique="runtime contract monitor on the real lifting classes with a scripted uniform draw integrated by probing+bisection (flow-balance oracle)",
     level="exploration", ref="DESIGN.md §3 C05",
     text="For thousands of generated derivative tables (zeros, near-cancelling, 1e12 spread, shuffled order) and EVERY possible active unit, the real insert/get_active_identifier is evaluated over the whole range of the scripted uniform; the measure of each selection is taken from the code's own answers and the balance equation, the no-non-negative-selection rule (including u=0 and u=1-2^-53), determinism and label independence are checked.",
